@@ -206,7 +206,7 @@ func FromRoot(root *ggql.Root) (*model.Schema, error) {
 			tm, _ := am["type"].(map[string]interface{})
 			ad.Type = introType(tm)
 			if dv, isS := am["defaultValue"].(string); isS {
-				ad.HasDefault, ad.Default = true, DefaultFromText(ad.Type, dv)
+				ad.HasDefault, ad.Default = true, DefaultFromText(s, ad.Type, dv)
 			}
 			dd.Args = append(dd.Args, ad)
 		}
@@ -391,21 +391,15 @@ func Canon(s *model.Schema, o CanonOpts) string {
 	return strings.Join(lines, "\n")
 }
 
-// DefaultFromText interprets an introspection defaultValue. The statement does not fix its text
-// format: ggql reports string defaults bare, everything else as a GraphQL literal. Both a bare
-// string and a quoted literal are accepted for string-like types.
-func DefaultFromText(t *model.TypeRef, text string) interface{} {
+// DefaultFromText interprets an introspection defaultValue for a type of schema s. The statement
+// does not fix the text format: ggql reports string defaults bare, everything else as a GraphQL literal.
+func DefaultFromText(s *model.Schema, t *model.TypeRef, text string) interface{} {
 	pv, err := ggql.ParseValueString(text)
 	base := t.Base()
-	stringy := !t.List && (t.Of == nil || !t.Of.List) && (base == "String" || base == "ID" || base == "Time" || !model.IsBuiltinScalar(base))
+	wrapped := t.List || (t.Of != nil && t.Of.List)
+	kind, known := s.KindOf(base)
+	stringy := !wrapped && (base == "String" || base == "ID" || base == "Time" || (known && kind == model.Scalar && !model.IsBuiltinScalar(base)))
 	if stringy {
-		if s, isS := pv.(string); isS && err == nil && strings.HasPrefix(strings.TrimSpace(text), "\"") {
-			return s
-		}
-		if _, isSym := pv.(ggql.Symbol); isSym && err == nil && !(base == "String" || base == "ID" || base == "Time") {
-			// an enum or custom scalar: a symbol is an enum default
-			return Value(pv)
-		}
 		if base == "ID" {
 			if i, isI := pv.(int64); isI && err == nil {
 				return i
@@ -417,4 +411,16 @@ func DefaultFromText(t *model.TypeRef, text string) interface{} {
 		return model.RawLit{Text: "<<unparsable defaultValue " + text + ">>", Value: text}
 	}
 	return Value(pv)
+}
+
+// DefaultAlternatives lists the readings of a defaultValue text worth comparing: for string-like
+// types both the bare text and the unquoted GraphQL string literal.
+func DefaultAlternatives(s *model.Schema, t *model.TypeRef, text string) []interface{} {
+	out := []interface{}{DefaultFromText(s, t, text)}
+	if pv, err := ggql.ParseValueString(text); err == nil {
+		if str, isS := pv.(string); isS {
+			out = append(out, str)
+		}
+	}
+	return out
 }
